@@ -51,10 +51,16 @@ def run_one(item, seed, tid):
         y = gen.target(rng, X, "count")
     elif loss.startswith("Cox"):
         y = gen.target(rng, X, "surv")
+        if args.get("variant") == "y_1d":
+            y[:, 1] = 1.0                       # documented: a 1-d y is "times, no censoring"
     elif loss == "QuadraticMultiTask":
         y = gen.target(rng, X, "reg", n_tasks=2, offset=1.0, nnz=nnz)
     else:
         y = gen.target(rng, X, "reg", offset=1.5, nnz=nnz)
+    if args.get("variant") == "high_snr":
+        wt_ = np.zeros(P)
+        wt_[rng.choice(P, 3, replace=False)] = rng.uniform(1.0, 3.0, 3)
+        y = X @ wt_ + 0.03 * float(np.linalg.norm(X @ wt_)) / np.sqrt(N) * rng.standard_normal(N)
     n = N
     # ---- strength relative to the critical one of the documented objective
     yc = y - (y.mean(axis=0) if fi_doc and loss not in ("Logistic", "HingeDual", "Poisson") else 0.0)
@@ -142,7 +148,7 @@ def run_one(item, seed, tid):
                     S.AndersonCD(tol=tol, fit_intercept=args["fit_intercept"], **({"max_iter": 400} if wide else {}))
                 est = skglm.GeneralizedLinearEstimator(dfo, po, so)
             Xs = sparse.csc_matrix(X) if args["storage"] == "csc" else X
-            est.fit(Xs, y)
+            est.fit(Xs, y[:, 0].copy() if args.get("variant") == "y_1d" else y)
         exc = None
     except BaseException as e:  # noqa: BLE001
         if isinstance(e, (KeyboardInterrupt, SystemExit)):
@@ -305,7 +311,7 @@ def run(prop, tier, seed):
 def _a(**kw):
     base = dict(est="", alpha="0.05", l1_ratio="0.3", C="1", gamma="3", weights="none", groups="int",
                 positive=False, fit_intercept=True, method="efron", gle=["Quadratic", "L1"], storage="dense",
-                size="small")
+                size="small", variant="plain")
     base.update(kw)
     return base
 
@@ -326,6 +332,10 @@ SENTINELS = [
     dict(args=_a(est="MCPRegression", weights="zeros", gamma="3"), doc=_doc("Quadratic", "WeightedMCPenalty", True)),
     dict(args=_a(est="ElasticNet", l1_ratio="0"), doc=_doc("Quadratic", "L1_plus_L2", True)),
     dict(args=_a(est="WeightedLasso", weights="wrong_length"), doc=_doc("Quadratic", "WeightedL1", True, expect="ValueError")),
+    dict(args=_a(est="SqrtLasso", variant="high_snr", alpha="0.05"), doc=_doc("SqrtQuadratic", "L1", False)),
+    dict(args=_a(est="SqrtLasso", variant="high_snr", alpha="0.3"), doc=_doc("SqrtQuadratic", "L1", False)),
+    dict(args=_a(est="CoxEstimator", variant="y_1d", method="breslow", l1_ratio="1"), doc=_doc("CoxBreslow", "L1", False)),
+    dict(args=_a(est="CoxEstimator", variant="y_1d", method="efron", l1_ratio="0.3"), doc=_doc("CoxEfron", "L1_plus_L2", False)),
     # more unpenalised features than p0, working set a strict subset of the features
     dict(args=_a(est="WeightedLasso", weights="zeros", size="wide"), doc=_doc("Quadratic", "WeightedL1", True)),
     dict(args=_a(est="WeightedLasso", weights="zeros", size="wide", storage="csc", fit_intercept=False),
